@@ -127,8 +127,36 @@ RObs(cs, c) ==
      rev  |-> (strand = "-") # c,
      vis  |-> RStatus(cs, TRUE), inside |-> RStatus(cs, FALSE)]
 
+(* Derived from the row feature on the view:                                      *)
+(*   as_one_span() / get_slice(allow_gaps=True) - the columns from its first to  *)
+(*   its last retained column, gap columns of x in between included, read on the  *)
+(*   feature's strand;                                                            *)
+(*   aln.with_masked_annotations("gene", shadow) - row x shows the mask character *)
+(*   at its denoted residues (shadow=False) or at all its other residues          *)
+(*   (shadow=True); gaps stay gaps; row y carries no feature, so it is untouched  *)
+(*   without shadow and masked completely with it.                                *)
+SpanCols(cs) ==
+    LET ps == RangeOf(AlnPos(cs)) IN
+    IF ps = {} THEN <<>>
+    ELSE LET lo == CHOOSE v \in ps : \A w \in ps : v <= w
+             hi == CHOOSE v \in ps : \A w \in ps : v >= w
+         IN SelectSeq(Ident(Len(cs)), LAMBDA k : lo <= k /\ k <= hi)
+SpanRead(cs) ==
+    LET inspan == {cs[k + 1] : k \in RangeOf(SpanCols(cs))}
+        asc == SelectSeq(Ident(L), LAMBDA c : c \in inspan)
+    IN IF strand = "+" THEN asc ELSE Reverse(asc)
+MaskX(cs, shadow) ==
+    SelectSeq(Ident(Len(cs)), LAMBDA k : /\ SymX(cs[k + 1]) # Gap
+                                         /\ (cs[k + 1] \in FeatCols) # shadow)
+MaskY(cs, shadow) == SelectSeq(Ident(Len(cs)), LAMBDA k : shadow /\ SymY(cs[k + 1]) # Gap)
+
 ObsOf(cs, c) ==
     [region |-> RObs(cs, c),
+     onepos |-> SpanCols(cs),
+     onerowx |-> [k \in 1..Len(SpanRead(cs)) |-> SymX(SpanRead(cs)[k])],
+     onerowy |-> [k \in 1..Len(SpanRead(cs)) |-> SymY(SpanRead(cs)[k])],
+     maskx |-> <<MaskX(cs, FALSE), MaskX(cs, TRUE)>>,
+     masky |-> <<MaskY(cs, FALSE), MaskY(cs, TRUE)>>,
      pos   |-> AlnPos(cs),
      rowx  |-> RowX(cs), rowy |-> RowY(cs),
      fcomp |-> strand = "-",
@@ -194,6 +222,13 @@ ProjectionAgrees ==
     /\ Len(ProjPos(cols)) = Len(ProjRead(cols))
     /\ {HeldY(cols)[p + 1] : p \in RangeOf(ProjPos(cols))} = RangeOf(ProjRead(cols))
     /\ \A v \in RangeOf(ProjRead(cols)) : yl[v + 1] \in FeatCols
+
+(* the covering span contains the feature's columns; the two masks of row x partition its residues in view *)
+AlgebraLaws ==
+    /\ RangeOf(AlnPos(cols)) \subseteq RangeOf(SpanCols(cols))
+    /\ RangeOf(MaskX(cols, FALSE)) = RangeOf(AlnPos(cols))
+    /\ RangeOf(MaskX(cols, FALSE)) \cap RangeOf(MaskX(cols, TRUE)) = {}
+    /\ Cardinality(RangeOf(MaskX(cols, FALSE)) \cup RangeOf(MaskX(cols, TRUE))) = Len(HeldX(cols))
 
 InsideIsComplete == Status(cols, FALSE) = "in" => (Status(cols, TRUE) = "in" /\ Len(RowX(cols)) = Cardinality(DenX))
 
